@@ -21,7 +21,7 @@ for sid in ids:
         for p in [prop] + EXTRA.get(sid, []):
             r = subprocess.run([os.path.join(V, "check"), p, "quick"], capture_output=True, text=True, timeout=1500, cwd=V)
             last = [l for l in r.stdout.splitlines() if l.startswith("VIOLATION") or l.startswith("OK ")]
-            viol = [l.strip() for l in r.stdout.splitlines() if l.strip().startswith("violation:")]
+            viol = [l.strip() for l in (r.stdout + "\n" + r.stderr).splitlines() if l.strip().startswith("violation:")]
             verdict = "missed" if r.returncode == 0 else ("detected (no failing input)" if last and last[-1].endswith("no-failing-input-found") else "detected with replay")
             rows.append((sid, p, verdict, (viol[0][11:160] if viol else "")))
     finally:
